@@ -339,15 +339,19 @@ Definition set_table_displayed (pinned : bool) (d : sdoc) (tidx : nat) (eid_crea
     match doc_get_style (sstore d) (f_table T) sn with
     | Err => Crashed
     | Ok found =>
-      let step1 :=
-        match match found with Some loc => entry_at (sstore d) loc | None => None end with
-        | Some orig => Done (sstore d, orig)
-        | None =>
+      let create :=
           let orig := mkE (t_style T) (Some (f_table T)) (Some (unique_ta (sstore d))) None eid_created in
           match insert_style pinned (sstore d) orig None true false with
           | Done (st1, _) => Done (st1, orig)
           | Rejected => Rejected | Crashed => Crashed
-          end
+          end in
+      let step1 :=
+        match match found with Some loc => entry_at (sstore d) loc | None => None end with
+        | Some orig =>
+          (* a table without style name: get_table_style returns the default table style; the pinned code clones that
+             style:default-style element into office:automatic-styles (F97), the repaired code creates a new style *)
+          if pinned || negb (etag orig =? t_default T) then Done (sstore d, orig) else create
+        | None => create
         end in
       match step1 with
       | Done (st1, orig) =>
